@@ -320,7 +320,7 @@ func (cf *ContractFile) addItem(kw, text string, line int, cur **FuncContract, c
 		cf.GlobalInv = append(cf.GlobalInv, c)
 	case "func", "extern", "interface":
 		t := text
-		if kw == "extern" {
+		if kw == "extern" || kw == "interface" {
 			t = strings.TrimSpace(strings.TrimPrefix(t, "func"))
 		}
 		// name is everything up to the parameter list: the last '(' that is matched by final ')'
